@@ -1,5 +1,6 @@
 import Zed.Model.Sexp
 import Zed.Model.TyContext
+import Zed.Model.CtxSteps
 /-!
   Driver glue for C05.
 
@@ -8,6 +9,10 @@ import Zed.Model.TyContext
   `(C05 cmptypes <tv> <tv>)` CompareTypes of two decoded type values (-1/0/1)
   `(C05 typematrix <tv>…)`  the whole CompareTypes matrix, rows separated by `/`
   `(C05 sortunion <tv>…)`   member order LookupTypeUnion gives (indices into the input)
+  `(C05 sched (<tv>…) (<thread index>…))`  one `LookupByValue(tv)` thread per type value, run on one
+       empty context under the schedule (`Ctx.runSched`); answers
+       `<thread>;<thread>;…|<type value of byID[0]> <type value of byID[1]> …` with
+       thread = `<progOk 0|1>,<parsed 0|1>,<instr> <instr> …,<running | nil | type value of the result>`
 -/
 namespace Zed.Drv.C05
 open Zed Zed.Sexp
@@ -143,6 +148,33 @@ def handle : List Sexp → String
       let tagged := ts.zipIdx
       let sorted := insertionSort (fun a b => tyLess a.1 b.1) tagged
       " ".intercalate (sorted.map fun p => toString p.2)
+  | [.atom "sched", .list tvs, .list sched] =>
+    match hexes tvs, sched.mapM (fun | .atom a => a.toNat? | _ => none) with
+    | some tvs, some sched =>
+      let r := Ctx.runSched sched Ctx.empty (tvs.map fun tv => .dec (Ctx.startD tv))
+      let instr : Instr → String
+        | .prim id => s!"p{id}"
+        | .array => "arr"
+        | .set => "set"
+        | .error => "err"
+        | .map => "map"
+        | .union n => s!"u{n}"
+        | .enum syms => "e:" ++ ".".intercalate (syms.map hexOfBytes)
+        | .record names => "r:" ++ ".".intercalate (names.map hexOfBytes)
+        | .named n => "n:" ++ hexOfBytes n
+        | .ref n => "f:" ++ hexOfBytes n
+      let b01 (b : Bool) : String := if b then "1" else "0"
+      let thread : Ctx.Thread → String
+        | .dec d =>
+          let p := Ctx.prog d.tv
+          let res := match d.ph with
+            | .done (some t) => hexOfBytes (encodeTV t)
+            | .done none => "nil"
+            | _ => "running"
+          s!"{b01 (Ctx.progOk d.tv)},{b01 p.2},{" ".intercalate (p.1.map instr)},{res}"
+        | .cli _ _ => "client"
+      ";".intercalate (r.2.map thread) ++ "|" ++ " ".intercalate (r.1.byID.map fun t => hexOfBytes (encodeTV t))
+    | _, _ => "bad-op"
   | _ => "bad-op"
 
 end Zed.Drv.C05
